@@ -110,6 +110,11 @@ ASMJIT_FAVOR_SIZE Error FuncArgsContext::init_work_data(const FuncFrame& frame, 
           return make_error(Error::kInvalidState);
         }
         _stack_dst_mask = uint8_t(_stack_dst_mask | Support::bit_mask<uint32_t>(signature.reg_group()));
+
+        // Stack to stack move always needs a scratch register.
+        if (src.is_stack()) {
+          reassignment_flag_mask |= 1u << uint32_t(signature.reg_group());
+        }
       }
 
       if (src.is_reg()) {
